@@ -1,12 +1,17 @@
 # Property checks: plan -> solver queries -> interpretation -> lifting/replay -> evidence.
-import json, os, sys, time
+import hashlib, json, os, re, sys, time, threading
 from . import core, plan
 from .core import ROOT
 
 TIERS = {
-    'quick': {'k2_ns': [1, 2], 'k2_timeout': 300},
-    'thorough': {'k2_ns': [1, 2, 3], 'k2_timeout': 3600},
+    'quick': {'k2_ns': [1, 2], 'k2_timeout': 300, 'k1_timeout': 420,
+              'k1': {'lru': 5, 'mru': 5, 'rr': 6, 'fifo': 4, 'lfu': 0, 'tlru': 3, 'utlru': 3, 'lfuda': 0, 'utmap': 0, 'utset': 0},
+              'k1_n': 2, 'lift_extra': 2, 'lift_timeout': 420},
+    'thorough': {'k2_ns': [1, 2, 3], 'k2_timeout': 3600, 'k1_timeout': 3600,
+                 'k1': {'lru': 7, 'mru': 7, 'rr': 8, 'fifo': 6, 'lfu': 3, 'tlru': 4, 'utlru': 4, 'lfuda': 2, 'utmap': 3, 'utset': 3},
+                 'k1_n': 2, 'lift_extra': 2, 'lift_timeout': 3600},
 }
+PROP_TITLES = {}
 
 
 def ts_modes(n, tier):
@@ -14,6 +19,21 @@ def ts_modes(n, tier):
     if tier == 'quick':
         return ['no'] if n == 1 else ['yes']
     return ['no', 'yes'] if n == 2 else ['no']
+
+
+def load_known():
+    known, fixed = [], []
+    p = os.path.join(ROOT, 'known_findings.txt')
+    if os.path.exists(p):
+        for line in open(p):
+            line = line.strip()
+            m = re.match(r'finding:\s+property=(C\d+)\s+key=(\S+)\s+(.*)', line)
+            if m:
+                known.append({'prop': m.group(1), 'key': m.group(2), 'what': m.group(3)})
+            m = re.match(r'fixed:\s+property=(C\d+)\s+(\S+)\s+(.*)', line)
+            if m:
+                fixed.append({'prop': m.group(1), 'commit': m.group(2), 'what': m.group(3)})
+    return known, fixed
 
 
 class Evidence:
@@ -38,6 +58,8 @@ class Evidence:
         self.solver_secs = 0.0
         self.peak_rss_mb = 0
         self.cache_hits = 0
+        self.replays = []
+        self.extra = {}
 
     def add_query(self, q, role):
         r = q.result
@@ -48,40 +70,44 @@ class Evidence:
         self.peak_rss_mb = max(self.peak_rss_mb, r.rss_kb // 1024)
         if r.cache_hit:
             self.cache_hits += 1
+        if q.c_path and os.path.exists(q.c_path) and len(self.functions) < 400:
+            try:
+                for m in re.finditer(r'(?m)^[A-Za-z_][^\n;=]*?\b(_ZN?\w*cappuccino\w+)\(', open(q.c_path).read()):
+                    self.functions.add(m.group(1))
+            except Exception:
+                pass
 
     def write(self):
-        d = {
-            'property_id': self.pid, 'tier': self.tier, 'seed': self.seed, 'level': 'model_checking',
-            'coverage': {
-                'evaluations': len(self.queries),
-                'distinct_nontrivial': len(self.nontrivial),
-                'rule': 'one evaluation = one CBMC (SAT) query over the C translation of the LLVM IR of the real headers; '
-                        'a query is counted non-trivial when its vacuity-witness twin reached every case split it names '
-                        '(each witness assertion came back violated) and distinct by (harness, container, method, capacity, '
-                        'thread_safe mode, property)',
-                'obligations': self.obligations, 'discharged': self.discharged,
-                'traces_validated_against_impl': self.traces_validated,
-                'checker_cmd': 'cbmc <generated.c> hooks/*.c --function harness --unwind N --unwinding-assertions '
-                               '--no-malloc-may-fail --drop-unused-functions [--no-standard-checks]',
-                'trusted_base': ['clang++-14 front end and -O1 pipeline', 'ir2c (validated per run by the native differential)',
-                                 'vstd contract model of libstdc++ (validated per run by the native differential)',
-                                 'CBMC 6.11 + MiniSat', 'the representation invariants and abstraction functions in harness/c_*.hpp'],
-                'samples': self.samples[:12],
-                'functions_encoded': sorted(self.functions)[:400],
-                'bounds': self.bounds,
-                'queries': self.queries,
-                'solver_seconds': round(self.solver_secs, 1),
-                'peak_rss_mb': self.peak_rss_mb,
-                'verdict_cache_hits': self.cache_hits,
-                'inconclusive': self.inconclusive,
-                'known_findings_reported': self.known,
-                'notes': self.notes,
-                'exhaustive': False,
-            },
-            'assumptions': self.assumptions,
-            'wall_s': round(time.time() - self.t0, 1),
-            'violations': self.violations,
+        cov = {
+            'evaluations': len(self.queries),
+            'distinct_nontrivial': len(self.nontrivial),
+            'rule': 'one evaluation = one CBMC (SAT) query over the C translation of the LLVM IR of the real headers; '
+                    'a query is counted non-trivial when its vacuity-witness twin reached every case split it names '
+                    '(each witness assertion came back violated) and distinct by (harness, container, method, capacity, '
+                    'thread_safe mode, property)',
+            'obligations': self.obligations, 'discharged': self.discharged,
+            'traces_validated_against_impl': self.traces_validated,
+            'checker_cmd': 'cbmc <generated.c> hooks/*.c --function harness --unwind N --unwinding-assertions '
+                           '--no-malloc-may-fail --drop-unused-functions [--no-standard-checks]',
+            'trusted_base': ['clang++-14 front end and -O1 pipeline', 'ir2c (validated per run by the native differential)',
+                             'vstd contract model of libstdc++ (validated per run by the native differential)',
+                             'CBMC 6.11 + MiniSat', 'the representation invariants and abstraction functions in harness/c_*.hpp'],
+            'samples': self.samples[:12],
+            'functions_encoded': sorted(self.functions)[:400],
+            'bounds': self.bounds,
+            'queries': self.queries,
+            'solver_seconds': round(self.solver_secs, 1),
+            'peak_rss_mb': self.peak_rss_mb,
+            'verdict_cache_hits': self.cache_hits,
+            'inconclusive': self.inconclusive,
+            'known_findings_reported': self.known,
+            'replays_on_real_build': self.replays,
+            'notes': self.notes,
+            'exhaustive': False,
         }
+        cov.update(self.extra)
+        d = {'property_id': self.pid, 'tier': self.tier, 'seed': self.seed, 'level': 'model_checking', 'coverage': cov,
+             'assumptions': self.assumptions, 'wall_s': round(time.time() - self.t0, 1), 'violations': self.violations}
         os.makedirs(os.path.join(ROOT, 'evidence'), exist_ok=True)
         p = os.path.join(ROOT, 'evidence', self.pid + '.json')
         json.dump(d, open(p + '.tmp', 'w'), indent=1)
@@ -91,13 +117,19 @@ class Evidence:
 COMMON_ASSUMPTIONS = [
     'instantiation: key_type = value_type = uint64_t (ut_set: key only)',
     'allocation never fails (--no-malloc-may-fail); keys, values 64-bit symbolic; allow, peek symbolic',
-    'clock readings non-decreasing, clock readings and TTLs in [0, 2^40) ticks; lfuda use counts < 2^16, tick in (0, 2^40)',
+    'clock readings non-decreasing, clock readings and TTLs in [0, 2^40) ticks; lfuda use counts < 2^16, tick in (0, 2^40), ratio 1/2',
     'std library replaced by the vstd contract model (list, unordered_map, map, multimap, vector, optional, chrono, random, mutex)',
     'K2: pre-state = any state satisfying the representation invariant of harness/c_<container>.hpp at the stated capacity',
+    'K1: histories start at the real constructor; keys range over capacity+2 distinct values (the code only compares keys)',
+    'paths on which a std precondition is violated are cut in property queries and asserted in the invariant (PROP=0) and C08 queries',
 ]
 
 
-def k2_queries(num, tier, only=None, props=None):
+def is_kf_case(num, cont):
+    return num == 2 and cont in ('utmap', 'utset')
+
+
+def k2_queries(num, tier, only=None):
     cfg = TIERS[tier]
     scope = plan.k2_scope(num)
     qs = []
@@ -107,58 +139,83 @@ def k2_queries(num, tier, only=None, props=None):
         for n in cfg['k2_ns']:
             for ts in ts_modes(n, tier):
                 for op in ops:
-                    group = {}
-                    for p in (props or [num, 0, 99]):
-                        extra = None
-                        tag = ''
-                        if num == 2 and p == 2 and cont in ('utmap', 'utset') and op == 'insert':
-                            extra = {'KF_TTL0': 0}; tag = '_ttlpos'   # the TTL == 0 case is the known-finding probe
-                        q = plan.k2_query(cont, op, n, p, ts, timeout=cfg['k2_timeout'], extra=extra, tag=tag)
-                        group[p] = q
-                        qs.append(q)
-                    if num == 2 and cont in ('utmap', 'utset') and op == 'insert':
-                        q = plan.k2_query(cont, op, n, 2, ts, timeout=cfg['k2_timeout'], extra={'KF_TTL0': 1}, tag='_ttl0')
+                    for p in ([num, 0, 99] if num != 0 else [0, 99]):
+                        extra, tag = None, ''
+                        if is_kf_case(num, cont) and p == num and op == 'insert':
+                            extra = {'KF_TTL0': 0}; tag = '_ttlpos'  # the TTL == 0 case is the known-finding probe
+                        qs.append(plan.k2_query(cont, op, n, p, ts, timeout=cfg['k2_timeout'], extra=extra, tag=tag))
+                    if is_kf_case(num, cont) and op == 'insert':
+                        q = plan.k2_query(cont, op, n, num, ts, timeout=cfg['k2_timeout'], extra={'KF_TTL0': 1}, tag='_ttl0')
                         q.meta['kf_probe'] = 'ut-ttl0'
                         qs.append(q)
     return qs
 
 
-def interpret_k2(ev, num, queries):
-    """returns list of failing (query, ids)"""
+def k1_queries(num, tier, only=None):
+    cfg = TIERS[tier]
+    qs = []
+    for cont in plan.k2_scope(num):
+        if only and cont not in only:
+            continue
+        n, k = cfg['k1_n'], cfg['k1'][cont]
+        ts = 'no'
+        if k == 0 and not is_kf_case(num, cont):
+            continue
+        for p in ((num, 99) if k else ()):
+            extra, tag = None, ''
+            if is_kf_case(num, cont) and p == num:
+                extra = {'KF_TTL0': 0}; tag = '_ttlpos'
+            qs.append(plan.k1_query(cont, n, k, p, ts, timeout=cfg['k1_timeout'], extra=extra, tag=tag))
+        if is_kf_case(num, cont):
+            q = plan.k1_query(cont, n, 2, num, ts, timeout=cfg['k1_timeout'], extra={'KF_TTL0': 1}, tag='_ttl0')
+            q.meta['kf_probe'] = 'ut-ttl0'
+            qs.append(q)
+    return qs
+
+
+def witness_ok(ev, q):
+    r = q.result
+    if r.status != 'fail':
+        ev.notes.append('witness twin %s: %s %s' % (q.name, r.status, r.note))
+        return False
+    ok = True
+    seen = False
+    for k, v in r.asserts.items():
+        if isinstance(k, int) and k // 1000 == 99:
+            seen = True
+            if v != 'FAILURE':
+                ok = False
+                ev.notes.append('vacuity: witness %d of %s unreachable' % (k, q.name))
+    return ok and seen
+
+
+def prop_ids(r, p):
+    return [k for k in r.asserts if (isinstance(k, int) and k // 1000 == p) or
+            (not isinstance(k, int) and p in (0, 8) and 'unwinding assertion' not in k)]
+
+
+def interpret(ev, num, queries, kind):
+    """account obligations of all queries of one kind; returns failing (query, ids)"""
     groups = {}
     for q in queries:
-        if q.meta.get('kind') != 'k2':
+        if q.meta.get('kind') != kind:
             continue
         m = q.meta
-        groups.setdefault((m['cont'], m['op'], m['n'], m['ts']), []).append(q)
+        groups.setdefault((m['cont'], m.get('op'), m['n'], m.get('k'), m['ts']), []).append(q)
     failures = []
-    for key, qs in sorted(groups.items()):
-        wit = [q for q in qs if q.meta['prop'] == 99]
+    for key, qs in sorted(groups.items(), key=lambda kv: str(kv[0])):
         wit_ok = True
-        wit_ids = []
-        for q in wit:
-            ev.add_query(q, 'witness')
-            r = q.result
-            if r.status not in ('fail',):
-                wit_ok = False
-                ev.notes.append('witness twin %s: %s %s' % (q.name, r.status, r.note))
-                continue
-            for k, v in r.asserts.items():
-                if isinstance(k, int) and k // 1000 == 99:
-                    wit_ids.append(k)
-                    if v != 'FAILURE':
-                        wit_ok = False
-                        ev.notes.append('vacuity: witness %d of %s unreachable' % (k, q.name))
+        for q in qs:
+            if q.meta['prop'] == 99:
+                ev.add_query(q, 'witness')
+                wit_ok = witness_ok(ev, q) and wit_ok
         for q in qs:
             p = q.meta['prop']
-            if p == 99:
+            if p == 99 or q.meta.get('kf_probe'):
                 continue
-            if q.meta.get('kf_probe'):
-                continue
-            role = 'invariant' if p == 0 else 'property'
-            ev.add_query(q, role)
+            ev.add_query(q, 'invariant' if p == 0 else 'property')
             r = q.result
-            ids = [k for k in r.asserts if (isinstance(k, int) and k // 1000 == p) or (not isinstance(k, int) and p in (0, 8))]
+            ids = prop_ids(r, p)
             if r.status == 'pass':
                 ev.obligations += max(1, len(ids))
                 if wit_ok:
@@ -177,24 +234,202 @@ def interpret_k2(ev, num, queries):
     return failures
 
 
+def lift_and_replay(ev, num, q):
+    """K1 counterexample -> public-API history -> replay on the real build.  Returns (reproduced, replay_path, info)"""
+    m = q.meta
+    vals = q.result.hist
+    if vals is None:
+        vals = core.parse_history(core.cbmc_trace(q))
+    if 'h_op' not in vals:
+        return False, None, {'error': 'no history in trace'}
+    lines = core.history_lines(vals, m['k']) if m['kind'] == 'k1' else core.state_lines(vals, 2 if m['kind'] == 'k2x2' else 1)
+    variant = 'san' if num == 8 else 'plain'
+    ratio = q.defines.get('T_RATIO4')
+    extra = ['-DT_RATIO4=%s' % ratio] if ratio is not None else []
+    hdr = '# cont=%s n=%d ts=%s prop=%d variant=%s%s' % (m['cont'], m['n'], m['ts'], num, variant,
+                                                          (' ratio4=%s' % ratio) if ratio is not None else '')
+    body = '\n'.join(lines) + '\n'
+    h = hashlib.sha256((hdr + body).encode()).hexdigest()[:12]
+    os.makedirs(os.path.join(ROOT, 'replays'), exist_ok=True)
+    path = os.path.join(ROOT, 'replays', 'C%02d-%s-%s.hist' % (num, m['cont'], h))
+    open(path, 'w').write(hdr + '\n' + body)
+    res = replay_history(path)
+    fails = [f for f in res['fails'] if f[0] // 1000 == num]
+    reproduced = bool(fails) or (num == 8 and res['rc'] not in (0, 1))
+    info = {'history': path, 'query': q.name, 'replay_rc': res['rc'], 'clause_failures': fails[:6], 'reproduced': reproduced,
+            'tail': res['out'][-600:]}
+    ev.replays.append(info)
+    return reproduced, path, info
+
+
+def replay_history(path):
+    txt = open(path).read()
+    m = re.search(r'#\s*cont=(\w+) n=(\d+) ts=(\w+) prop=(\d+) variant=(\w+)(?: ratio4=(\d+))?', txt)
+    if not m:
+        raise core.ToolError('bad replay file ' + path)
+    cont, n, ts, prop, variant, ratio = m.group(1), int(m.group(2)), m.group(3), int(m.group(4)), m.group(5), m.group(6)
+    exe = core.build_replay(cont, n, ts, variant, ['-DT_RATIO4=%s' % ratio] if ratio else [])
+    tmp = path + '.in'
+    open(tmp, 'w').write('\n'.join(l for l in txt.splitlines() if not l.startswith('#')) + '\n')
+    res = core.run_replay(exe, prop, tmp)
+    os.remove(tmp)
+    res['prop'] = prop
+    return res
+
+
+def replay_file(pid, path):
+    res = replay_history(path)
+    print(res['out'])
+    fails = [f for f in res['fails'] if f[0] // 1000 == res['prop']]
+    if fails or (res['prop'] == 8 and res['rc'] not in (0, 1)):
+        print('VIOLATION property=%s replay=%s' % (pid, path))
+        return 1
+    print('replay: no violation of %s reproduced' % pid)
+    return 0
+
+
 def run_property(num, tier, seed, only=None):
     ev = Evidence(num, tier, seed)
     ev.assumptions = list(COMMON_ASSUMPTIONS)
     cfg = TIERS[tier]
-    ev.bounds = {'k2_capacities': cfg['k2_ns'], 'k2_histories': 'any length (inductive step)', 'per_query_timeout_s': cfg['k2_timeout']}
+    ev.bounds = {'k2_capacities': cfg['k2_ns'], 'k2_histories': 'any length (inductive step from any invariant state)',
+                 'k1_capacity': cfg['k1_n'], 'k1_history_length': cfg['k1'], 'per_query_timeout_s': cfg['k2_timeout'],
+                 'outside': 'capacities above the listed ones; K1 histories longer than listed; value types other than uint64_t; '
+                            'allocation failure; clocks beyond 2^40 ticks or decreasing; lfuda ratios other than 1/2'}
     pid = ev.pid
-    qs = k2_queries(num, tier, only)
-    sys.stderr.write('%s %s: %d K2 queries\n' % (pid, tier, len(qs)))
+    known, _fixed = load_known()
+    qs = k2_queries(num, tier, only) + k1_queries(num, tier, only)
+    sys.stderr.write('%s %s: %d queries\n' % (pid, tier, len(qs)))
     core.run_all(qs)
-    failures = interpret_k2(ev, num, qs)
-    rc = 0
-    for q, bad in failures:
-        msg = 'K2 step %s: assertion(s) %s fail from an arbitrary invariant state' % (q.name, bad)
+    rc = finish(ev, num, tier, qs, known)
+    return rc
+
+
+def finish(ev, num, tier, qs, known, extra_violations=()):
+    cfg = TIERS[tier]
+    pid = ev.pid
+    k2_fail = interpret(ev, num, qs, 'k2')
+    k1_fail = interpret(ev, num, qs, 'k1')
+    violations = list(extra_violations)  # (path, text)
+    reproduced_conts = set()
+    # ---- K1 counterexamples are public-API histories: replay them on the real build
+    for q, bad in k1_fail:
+        ok, path, info = lift_and_replay(ev, num, q)
+        if ok:
+            violations.append((path, '%s: clauses %s fail on the real build (history of %d calls)' % (q.name, info['clause_failures'][:3], q.meta['k'])))
+            reproduced_conts.add(q.meta['cont'])
+        else:
+            msg = 'K1 counterexample of %s did not reproduce on the real build (%s)' % (q.name, str(info)[:300])
+            ev.inconclusive.append(msg)
+            print('INCONCLUSIVE property=%s %s' % (pid, msg))
+    # ---- K2 counterexamples are (state, call) pairs, possibly unreachable.  Lifting, step 1: reach alpha(pre) on the
+    # real build through the public API (state builder in replay.cpp), run the call there, evaluate the clauses.
+    for q, bad in k2_fail:
+        if q.meta['prop'] == 0 or q.meta['n'] > 4:
+            continue
+        ok, path, info = lift_and_replay(ev, num, q)
+        if ok:
+            violations.append((path, '%s: from the abstract state of the solver counterexample, rebuilt through the public API, '
+                               'clauses %s fail on the real build' % (q.name, info['clause_failures'][:3])))
+            reproduced_conts.add(q.meta['cont'])
+    # ---- step 2 (invariant failures): one more call after the failing one, the clauses asserted around the second
+    # call (K2x2).  The counterexample starts in an invariant state, so the state builder can reach it.
+    x2 = []
+    for q, bad in k2_fail:
+        cont = q.meta['cont']
+        if cont in reproduced_conts or q.meta['prop'] != 0 or num in (0, 8):
+            continue
+        scope_ops = plan.k2_scope(num).get(cont, [])
+        for op2 in plan.ops_of(cont):
+            xq = plan.k2_query(cont, q.meta['op'], q.meta['n'], num, q.meta['ts'], timeout=cfg['lift_timeout'], op2=op2)
+            xq.meta['lift_of'] = q.name
+            xq.meta['mem_gb'] = xq.meta['mem_gb'] * 2
+            if not any(x.name == xq.name for x in x2):
+                x2.append(xq)
+    if x2:
+        sys.stderr.write('%s: lifting %d invariant failure(s) through %d two-call queries\n' % (pid, len([1 for q, b in k2_fail if q.meta['prop'] == 0]), len(x2)))
+        lock = threading.Lock()
+
+        def x2_done(xq):
+            if xq.result.status != 'fail':
+                return None
+            with lock:
+                if xq.meta['cont'] in reproduced_conts:
+                    return None
+                ok, path, info = lift_and_replay(ev, num, xq)
+                if ok:
+                    violations.append((path, '%s (lifting %s): from an invariant state rebuilt through the public API, two calls make clauses %s '
+                                       'fail on the real build' % (xq.name, xq.meta['lift_of'], info['clause_failures'][:3])))
+                    reproduced_conts.add(xq.meta['cont'])
+                    return [o for o in x2 if o.meta['cont'] == xq.meta['cont'] and o is not xq]
+            return None
+        for xq in x2:  # cheap first: the weight of the first call dominates
+            xq.meta['weight'] = -xq.meta['weight']
+        core.run_all(x2, on_done=x2_done)
+        for xq in x2:
+            ev.add_query(xq, 'lifting (K2x2)')
+    # ---- step 3: a deeper, directed K1 query ending in the failing method (containers whose K1 is affordable)
+    lift_qs = []
+    for q, bad in k2_fail:
+        cont = q.meta['cont']
+        if cont in reproduced_conts or cfg['k1'][cont] == 0:
+            continue
+        if q.meta['prop'] == 0 and num != 0 and any(x[0].meta['cont'] == cont and x[0].meta['prop'] == num for x in k2_fail):
+            continue
+        k = cfg['k1'][cont] + cfg['lift_extra']
+        lq = plan.k1_query(cont, 2, k, num if num else 1, 'no', timeout=cfg['lift_timeout'],
+                           extra={'LAST_OP': plan.OP[q.meta['op']]}, tag='_lift_' + q.meta['op'])
+        lq.meta['lift_of'] = q.name
+        if not any(x.name == lq.name for x in lift_qs):
+            lift_qs.append(lq)
+    if lift_qs:
+        sys.stderr.write('%s: lifting %d K2 counterexample(s) through directed K1 queries\n' % (pid, len(lift_qs)))
+        core.run_all(lift_qs)
+        for lq in lift_qs:
+            ev.add_query(lq, 'lifting (directed K1)')
+            if lq.result.status == 'fail' and lq.meta['cont'] not in reproduced_conts:
+                ok, path, info = lift_and_replay(ev, num, lq)
+                if ok:
+                    violations.append((path, '%s (lifting %s): clauses %s fail on the real build' % (lq.name, lq.meta['lift_of'], info['clause_failures'][:3])))
+                    reproduced_conts.add(lq.meta['cont'])
+    for q, bad in k2_fail:
+        if q.meta['cont'] in reproduced_conts:
+            continue
+        msg = 'K2 step %s: assertion(s) %s fail from an invariant state that no explored history reaches (not reported as a violation)' % (q.name, bad[:6])
         ev.inconclusive.append(msg)
         print('INCONCLUSIVE property=%s %s' % (pid, msg))
-    for q in qs[:6]:
-        if q.result and q.result.status == 'pass':
+    # ---- known-finding probes
+    for q in qs:
+        key = q.meta.get('kf_probe')
+        if not key:
+            continue
+        ev.add_query(q, 'known-finding probe')
+        if q.result.status != 'fail' or q.meta['kind'] != 'k1':
+            continue
+        ok, path, info = lift_and_replay(ev, num, q)
+        if not ok:
+            continue
+        listed = [k for k in known if k['prop'] == pid and k['key'] == key]
+        if listed:
+            line = 'KNOWN-FINDING: property=%s %s [%s; reproduced on the real build: %s]' % (pid, listed[0]['what'], key, os.path.relpath(path, ROOT))
+            print(line)
+            ev.known.append(line)
+        else:
+            violations.append((path, 'unlisted finding %s' % key))
+    # ---- samples
+    for q in qs:
+        if len(ev.samples) >= 8:
+            break
+        if q.result and q.result.status == 'pass' and q.meta.get('prop') == num:
             ev.samples.append({'query': q.name, 'cmd': ' '.join(q.cbmc_cmd()[3:]), 'checks': q.result.n_checks,
                                'asserts': {str(k): v for k, v in list(q.result.asserts.items())[:8]}})
+    if not ev.samples:
+        ev.samples.append({'note': 'no passing property query in this run'})
+    rc = 0
+    for path, text in violations:
+        print('VIOLATION property=%s replay=%s' % (pid, path))
+        print('  ' + text)
+        ev.violations += 1
+        rc = 1
     ev.write()
     return rc
